@@ -464,7 +464,17 @@ impl Writer {
         };
         // Sync immediately if the strategy is "always"
         if let SyncStrategy::Always = self.ctx.conf.sync {
-            self.writer.sync()?;
+            if let Err(e) = self.writer.sync() {
+                // The entry is in the file but it is not going to be in KeyDir, account it
+                // as a dead entry so that the file can be merged
+                self.written_bytes += index.len;
+                self.ctx
+                    .stats
+                    .entry(self.active_fileid)
+                    .or_default()
+                    .add_dead(index.len);
+                return Err(e.into());
+            }
         }
         // Record number of bytes have been written to the active file
         self.written_bytes += index.len;
